@@ -53,6 +53,19 @@ Theorem C20_single_env_override :
     /\ (v <> "" -> lookup cfg (e_key e1) = canon (e_type e1) v).
 Proof. exact single_env_override. Qed.
 
+(* which file: exactly the one selected with the config-file option, in the format of its extension (an
+   extension viper does not know is refused); without the option, ./config.yaml and nothing else.  Files lying
+   next to the selected one are not an input of the model, so they cannot matter. *)
+Theorem C20_selected_file_is_read :
+  forall envf tbl penv ext filel,
+    (In ext viper_exts ->
+     load_sel_with envf tbl penv (Some (false, ext, filel)) = load_with envf tbl penv filel)
+    /\ (~ In ext viper_exts -> load_sel_with envf tbl penv (Some (false, ext, filel)) = None)
+    /\ load_sel_with envf tbl penv (Some (true, "yaml", filel)) = load_with envf tbl penv filel
+    /\ (ext <> "yaml" -> load_sel_with envf tbl penv (Some (true, ext, filel)) = load_with envf tbl penv [])
+    /\ load_sel_with envf tbl penv None = load_with envf tbl penv [].
+Proof. exact selected_file_is_read. Qed.
+
 (* the model of the code meets the contract whenever no variable is set to the empty string ... *)
 Theorem C20_load_model_meets_contract :
   forall tbl penv filel, (forall var, ~ In (var, "") penv) -> load_model tbl penv filel = load_spec tbl penv filel.
@@ -128,6 +141,7 @@ Print Assumptions C20_resolve_precedence.
 Print Assumptions C20_load_precedence.
 Print Assumptions C20_untouched_keys_keep_default.
 Print Assumptions C20_single_env_override.
+Print Assumptions C20_selected_file_is_read.
 Print Assumptions C20_load_model_meets_contract.
 Print Assumptions C20_env_empty_refuted.
 Print Assumptions C20_env_name_well_formed.
